@@ -4,8 +4,10 @@
 #[path = "../../mux/src/util.rs"]
 mod util;
 mod c01;
+mod c10w;
 mod c14;
 mod c17;
+mod c18s;
 mod c19;
 mod net;
 
@@ -46,8 +48,10 @@ fn main() {
     let t0 = std::time::Instant::now();
     let (st, rule): (Stats, &str) = match cmd.as_str() {
         "c01" => c01::run(&p),
+        "c10w" => c10w::run(&p),
         "c14" => c14::run(&p),
         "c17" => c17::run(&p),
+        "c18s" => c18s::run(&p),
         "c19" => c19::run(&p),
         "noop" => (Stats::new(), "noop"),
         other => {
